@@ -24,6 +24,8 @@ Reasons (by kind):
 * `ext:*`: preconditions discharged by the CheckKey / nonce-length / size gates (C11, C12, C16 theorems) or by
   construction; `reflect.Value.Interface` on the zero Value is guarded (D5 fix); `crypto.Hash.New`: hashes linked
   by the package (D15 fix) or `Available()` checked.
+* `CoseMap.MarshalCBOR` (D13 fix): `rv.Int()` / `rv.Uint()` under a `Kind()` switch on exactly the signed / unsigned
+  kinds; the `seen` map is made non-nil with `len(m)`; its keys are map keys of `m` already, hence hashable.
 * `panic`: `MustMarshalCBOR` / `UnwrapBytes` / `Register*` (documented, excluded) and `ccm.Seal` (length now
   checked by the caller, D3 fix).
 -/
@@ -58,6 +60,7 @@ def expectedPanicSites : List (String × List (String × Nat)) := [
   ("key.CoseMap.GetInt64", [("ext:reflect.Value.Int", 1), ("ext:reflect.Value.Uint", 1)]),
   ("key.CoseMap.GetMap", [("ext:reflect.Value.Interface", 1), ("ext:reflect.Value.Len", 1), ("ext:reflect.Value.MapRange", 1), ("make", 1), ("mapwrite", 1)]),
   ("key.CoseMap.GetUint64", [("ext:reflect.Value.Int", 1), ("ext:reflect.Value.Uint", 1)]),
+  ("key.CoseMap.MarshalCBOR", [("ext:reflect.Value.Int", 1), ("ext:reflect.Value.Uint", 1), ("make", 1), ("mapwrite", 1)]),
   ("key.CoseMap.Set", [("mapwrite", 1)]),
   ("key.CoseMap.UnmarshalCBOR", [("make", 1), ("mapwrite", 1)]),
   ("key.GetRandomBytes", [("make", 1)]),
